@@ -4,8 +4,10 @@ package contracts
 
 // Driver for buildContractState (C01): the function that maps the file-contract element diffs of a
 // consensus update to contracts.StateChanges, in particular that a REVERTED revision records the
-// previous revision.  Generated diffs (all flag combinations, relevant and irrelevant contracts)
-// are run through the real function and recorded for the Coq model Contracts/Build.v.
+// previous revision and that a diff into which core merged several changes of one contract
+// (created with folded revisions; revised and resolved) yields all of them.  Generated diffs (all
+// flag combinations, relevant and irrelevant contracts) are run through the real function and
+// recorded for the Coq model Contracts/Build.v.
 
 import (
 	"fmt"
@@ -76,7 +78,9 @@ func TestVerifC01Build(t *testing.T) {
 			rev  uint64
 		}
 		var wants []want
-		sameBlock := false // some relevant v2 contract is revised and resolved by this update
+		sameBlock := false                             // some relevant v2 contract is revised and resolved by this update
+		sameBlockV1 := map[types.FileContractID]bool{} // relevant v1 contracts revised and proven by this update
+		foldedV1 := map[types.FileContractID]bool{}    // relevant v1 contracts created by this update
 		for i, k := 0, rng.Intn(5); i < k; i++ {
 			cid := vfBuildID(false, i+1)
 			relevant := rng.Intn(5) != 0
@@ -88,7 +92,7 @@ func TestVerifC01Build(t *testing.T) {
 			missedGE := fc.MissedHostPayout().Cmp(fc.ValidHostPayout()) >= 0
 			d := consensus.FileContractElementDiff{FileContractElement: types.FileContractElement{ID: cid, FileContract: fc}}
 			var rev *uint64
-			pick := rng.Intn(4)
+			pick := rng.Intn(5)
 			if malformed {
 				d.Created = rng.Intn(2) == 0
 				if rng.Intn(2) == 0 {
@@ -100,8 +104,19 @@ func TestVerifC01Build(t *testing.T) {
 			} else {
 				switch pick {
 				case 0:
+					// created: revisions confirmed in the same block are folded into the created
+					// element (cur is its revision number), so it is also the confirmed revision;
+					// reverting restores revision 0
 					d.Created = true
 					wants = append(wants, want{false, cid, "confirmed", 0})
+					w := cur
+					if revert {
+						w = 0
+					}
+					wants = append(wants, want{false, cid, "revised", w})
+					if relevant {
+						foldedV1[cid] = true
+					}
 				case 1:
 					r := cur + 1 + uint64(rng.Intn(3))
 					rev = &r
@@ -113,6 +128,21 @@ func TestVerifC01Build(t *testing.T) {
 				case 2:
 					d.Resolved, d.Valid = true, true
 					wants = append(wants, want{false, cid, "successful", 0})
+				case 4:
+					// revised and proven in the same block (consensus-valid in the block at the
+					// height of the window start): both changes must be recorded
+					r := cur + 1 + uint64(rng.Intn(3))
+					rev = &r
+					w := r
+					if revert {
+						w = cur
+					}
+					d.Resolved, d.Valid = true, true
+					wants = append(wants, want{false, cid, "revised", w})
+					wants = append(wants, want{false, cid, "successful", 0})
+					if relevant {
+						sameBlockV1[cid] = true
+					}
 				default:
 					d.Resolved = true
 					if missedGE {
@@ -127,7 +157,7 @@ func TestVerifC01Build(t *testing.T) {
 				rfc.RevisionNumber = *rev
 				d.Revision = &rfc
 			}
-			if !relevant && len(wants) > 0 && wants[len(wants)-1].id == cid && !wants[len(wants)-1].v2 {
+			for !relevant && len(wants) > 0 && wants[len(wants)-1].id == cid && !wants[len(wants)-1].v2 {
 				wants = wants[:len(wants)-1]
 			}
 			d1 = append(d1, d)
@@ -311,6 +341,10 @@ func TestVerifC01Build(t *testing.T) {
 					sig := "state-change-missing-or-wrong"
 					if sameBlock && w.v2 {
 						sig = "same-block-revision-and-resolution-not-both-recorded"
+					} else if !w.v2 && foldedV1[w.id] && w.kind == "revised" {
+						sig = "same-block-formation-and-revision-not-both-recorded"
+					} else if !w.v2 && sameBlockV1[w.id] && w.kind == "successful" {
+						sig = "same-block-v1-revision-and-proof-not-both-recorded"
 					} else if w.kind == "revised" && revert {
 						sig = "reverted-revision-does-not-record-previous-revision"
 					}
